@@ -691,4 +691,226 @@ theorem delegationsOf_facts (s : Sys) :
     obtain ⟨v, _, he⟩ := List.mem_map.mp hx
     subst he; rfl
 
+
+/-- **The unbond that closes the batch succeeds as a whole transaction** (stSei): the hub records
+    the request, values the whole batch, the staking module accepts every Undelegate message (no
+    validator is asked for more than it holds — C12), the tokens are burned and the rates
+    refreshed; the batch is written to the history and the next one opens. Premises on the state
+    the slashing check produces (`st`): something is delegated, the books do not exceed the
+    delegations (what `C02_reachable` / the check itself establish) and neither pool is
+    zero-backed (D6 — with a zero-backed pool the statement is false, known finding). -/
+theorem C09_stsei_unbond_closing_batch_tx_succeeds (s : Sys) (u : Addr) (amt : Nat) (st : HubSt)
+    (hp : s.hub.isPaused = false) (hbt : s.hub.bsei = some bseiA) (hst : s.hub.stsei = some stseiA)
+    (hth : s.stsei.hub = hubA) (wf : s.stsei.WF) (hpos : 0 < amt) (hbal : amt ≤ s.stsei.bal u)
+    (ht1 : s.hub.lastUnbondedTime ≤ s.chain.time)
+    (hgate : s.chain.time - s.hub.lastUnbondedTime > s.hub.epoch)
+    (hact : s.hub.actualState s.hubEnv = .ok st)
+    (hd : s.delegationsOf hubA ≠ []) (hr : ((s.delegationsOf hubA).map (·.2)).sum < U128)
+    (hsb : st.sBond ≠ 0) (hbb : st.bBond ≠ 0 ∨ st.reqB = 0)
+    (hbooks : st.bBond + st.sBond ≤ ((s.delegationsOf hubA).map (·.2)).sum) :
+    ∃ s', s.exec (.wasm u stseiA (.tok (.send hubA amt .unbond)) []) = (s', .ok ()) ∧
+      s'.hub.batchId = s.hub.batchId + 1 ∧
+      (∃ x, s'.hub.hist s.hub.batchId = some x ∧ x.sAmt = s.hub.reqS + amt ∧ x.time = s.chain.time ∧ x.released = false) ∧
+      s'.stsei.supply + amt = s.stsei.supply := by
+  -- 1. the token moves the tokens to the hub and notifies it
+  obtain ⟨t1, ht1'⟩ : ∃ t, s.stsei.transfer u hubA amt = .ok t := by
+    unfold Token.transfer Token.move
+    rw [if_neg (by omega), if_neg (by omega)]
+    exact ⟨_, rfl⟩
+  have st1 := Token.transfer_step s.stsei t1 wf u hubA amt ht1'
+  have hub1 : t1.hub = hubA := by rw [st1.1.hub]; exact hth
+  have sup1 : t1.supply = s.stsei.supply := by have := st1.1.supply; omega
+  have balh : amt ≤ t1.bal hubA := by
+    unfold Token.transfer Token.move at ht1'
+    rw [if_neg (by omega), if_neg (by omega)] at ht1'
+    injection ht1' with ht1'; subst ht1'
+    simp [Token.setBal, upd]
+  obtain ⟨s1, hs1⟩ : ∃ x : Sys, x = { s with stsei := t1 } := ⟨_, rfl⟩
+  have H1 : s.handle (.wasm u stseiA (.tok (.send hubA amt .unbond)) []) =
+      .ok (s1, [Msg.wasm stseiA hubA (.hub (.receive u amt .unbond)) []]) := by
+    simp only [Sys.handle, Sys.moveFunds, bind, Except.bind, pure, Except.pure]
+    rw [if_neg (by decide), if_neg (by decide), if_pos trivial]
+    simp only [stseiExec, bind, Except.bind, pure, Except.pure, ht1', receiveMsg, if_true, hs1]
+  -- 2. the hub sees the same environment as before the transfer (the supply is unchanged)
+  have henv : s1.hubEnv = s.hubEnv := by
+    rw [hs1]
+    unfold Sys.hubEnv
+    have : ({ s with stsei := t1 } : Sys).supplyOf = s.supplyOf := by
+      funext a; unfold Sys.supplyOf; simp only [sup1]
+    simp only [this]
+    rfl
+  have hubeq : s1.hub = s.hub := by rw [hs1]
+  have spec := actualState_spec s.hub st s.hubEnv hact
+  have sb := spec.1
+  have hdel : s.hubEnv.delegations = s.delegationsOf hubA := rfl
+  have hnow : s.hubEnv.now = s.chain.time := rfl
+  -- the slashing check took its main branch: rates are true ratios
+  obtain ⟨bs, ss, _, _, hbsq, hssq, hbR, hsR, _⟩ : ∃ bs ss, s.hubEnv.delegations ≠ [] ∧ s.hub.bBond + s.hub.sBond ≠ 0 ∧
+      s.hub.bSupplyQ s.hubEnv = .ok bs ∧ s.hub.sSupplyQ s.hubEnv = .ok ss ∧
+      st.bRate = rateOf st.bBond bs s.hub.reqB ∧ st.sRate = rateOf st.sBond ss s.hub.reqS ∧ True := by
+    rcases spec.2 with ⟨hz, he⟩ | ⟨bs, ss, h1, h2, h3, h4, h5, h6, _⟩
+    · subst he
+      rcases hz with hz | hz
+      · exact absurd hz hd
+      · omega
+    · exact ⟨bs, ss, h1, h2, h3, h4, h5, h6, trivial⟩
+  have hss : ss = s.stsei.supply := by
+    simp only [HubSt.sSupplyQ, hst] at hssq
+    have : s.hubEnv.supplyOf stseiA = .ok s.stsei.supply := rfl
+    rw [this] at hssq; injection hssq with h; exact h.symm
+  have hsup : amt ≤ s.stsei.supply := Nat.le_trans hbal (Token.bal_le_supply s.stsei wf u)
+  have hS : mulDec (st.reqS + amt) st.sRate ≤ st.sBond := by
+    rw [hsR, sb.reqS]
+    unfold rateOf
+    have hne : ¬ (st.sBond = 0 ∨ ss + s.hub.reqS = 0) := by
+      intro h; rcases h with h | h
+      · exact hsb h
+      · omega
+    rw [if_neg hne]
+    apply C09_undelegation_within_books _ _ (ss - amt) _
+    have : ss - amt + (s.hub.reqS + amt) = ss + s.hub.reqS := by omega
+    rw [this]
+    exact Nat.div_mul_le_self _ _
+  have hB : mulDec st.reqB st.bRate ≤ st.bBond := by
+    rcases hbb with hb | hb
+    · rw [hbR, sb.reqB]
+      unfold rateOf
+      by_cases hz : bs + s.hub.reqB = 0
+      · have : s.hub.reqB = 0 := by omega
+        rw [this]; unfold mulDec; rw [Nat.zero_mul, Nat.zero_div]; exact Nat.zero_le _
+      · rw [if_neg (by intro h; rcases h with h | h; exact hb h; exact hz h)]
+        apply C09_undelegation_within_books _ _ bs _
+        exact Nat.div_mul_le_self _ _
+    · rw [hb]; unfold mulDec; rw [Nat.zero_mul, Nat.zero_div]; exact Nat.zero_le _
+  obtain ⟨h2, ms2, hun⟩ := C09_unbond_stsei_live s.hub st s.hubEnv amt u stseiA hact
+    (by rw [sb.lastUnb, hnow]; exact ht1) hst
+    (fun _ => ⟨by rw [hdel]; exact hd, by rw [hdel]; exact hr, hS, hB, by rw [hdel]; omega⟩)
+  obtain ⟨st', tok, hact', _, htok, hcase⟩ := unbondS_spec s.hub h2 s.hubEnv amt u ms2 hun
+  have est : st' = st := by
+    have : (Except.ok st' : Res HubSt) = .ok st := by rw [← hact', ← hact]
+    injection this
+  subst est
+  have etok : tok = stseiA := by rw [hst] at htok; injection htok with h; exact h.symm
+  subst etok
+  obtain ⟨um, hpu, hms2⟩ : ∃ um, (st'.afterUnbondS u amt).processUndelegations s.hubEnv = .ok (h2, um) ∧
+      ms2 = um ++ [HubSt.tokMsg s.hubEnv.self stseiA (.burn amt)] := by
+    rcases hcase with ⟨_, um, h1, h2'⟩ | ⟨hng, _, _⟩
+    · exact ⟨um, h1, h2'⟩
+    · exfalso; apply hng; rw [sb.lastUnb, sb.epoch, hnow]; exact hgate
+  have psp := processUndelegations_spec _ _ _ _ hpu
+  obtain ⟨s2, hs2⟩ : ∃ x : Sys, x = { s1 with hub := h2 } := ⟨_, rfl⟩
+  have H2 : s1.handle (Msg.wasm stseiA hubA (.hub (.receive u amt .unbond)) []) = .ok (s2, ms2) := by
+    simp only [Sys.handle, Sys.moveFunds, bind, Except.bind, pure, Except.pure]
+    rw [if_pos trivial]
+    simp only [hubExec, hubeq, hp, Bool.false_eq_true, if_false, hbt, hst, bind, Except.bind, pure, Except.pure]
+    rw [if_neg (by decide), if_pos trivial, henv, hun, hs2]
+  -- 3. the Undelegate messages
+  obtain ⟨plan, hplan, hum⟩ : ∃ plan, calculateUndelegations 1
+      (mulDec (st'.afterUnbondS u amt).reqB (st'.afterUnbondS u amt).bRate +
+        mulDec (st'.afterUnbondS u amt).reqS (st'.afterUnbondS u amt).sRate)
+      ((sortDesc s.hubEnv.delegations).map (·.2)) = some plan ∧
+      um = zipMsgs (fun v p => Msg.undelegate hubA v p) (sortDesc s.hubEnv.delegations) plan := by
+    have hpk := psp.1
+    unfold pickValidator at hpk
+    simp only [] at hpk
+    split at hpk
+    · cases hpk
+    · rename_i plan hplan
+      injection hpk with hpk
+      exact ⟨plan, hplan, hpk.symm⟩
+  have c12 := C12_undeleg_conserves 0 _ _ plan hplan
+  have df := delegationsOf_facts s
+  have ch2 : s2.chain = s.chain := by rw [hs2, hs1]
+  obtain ⟨k, s2', hk, sc2, ht2, hh2, hb2, hrun⟩ := run_undelegates (sortDesc s.hubEnv.delegations) plan s2
+    ([HubSt.tokMsg hubA stseiA (.burn amt)] ++ [])
+    (nodup_sortDesc _ df.1)
+    (fun x hx => by rw [ch2]; exact df.2 x ((mem_sortDesc x _).mp hx))
+    (fun j => (c12.2.2 j).1)
+  have hklen : k ≤ 5 := by
+    have h1 : (sortDesc s.hubEnv.delegations).length = s.hubEnv.delegations.length := by
+      have : ∀ l : List (Addr × Nat), (sortDesc l).length = l.length := by
+        intro l
+        induction l with
+        | nil => rfl
+        | cons x xs ih =>
+          have e : sortDesc (x :: xs) = insDesc x (sortDesc xs) := rfl
+          have ins : ∀ (m : List (Addr × Nat)), (insDesc x m).length = m.length + 1 := by
+            intro m
+            induction m with
+            | nil => rfl
+            | cons y ys ihy => simp only [insDesc]; split <;> simp [ihy]
+          rw [e, ins, ih]; rfl
+      exact this _
+    have h2 : s.hubEnv.delegations.length ≤ 5 := by
+      show (s.delegationsOf hubA).length ≤ 5
+      unfold Sys.delegationsOf
+      simp only [if_true, List.length_map]
+      exact Nat.le_trans (List.length_filter_le _ _) (by decide)
+    omega
+  -- 4. the hub burns what it received
+  have stsei2 : s2'.stsei = t1 := by rw [sc2.stsei, hs2, hs1]
+  have wf1 : t1.WF := st1.1.wf
+  obtain ⟨t2, hb2'⟩ : ∃ t, t1.burn hubA amt = .ok t := by
+    unfold Token.burn
+    have := Token.bal_le_supply t1 wf1 hubA
+    rw [if_neg (by omega), if_neg (by omega), if_neg (by omega)]
+    exact ⟨_, rfl⟩
+  have sup2 : t2.supply + amt = s.stsei.supply := by
+    unfold Token.burn at hb2'
+    have := Token.bal_le_supply t1 wf1 hubA
+    rw [if_neg (by omega), if_neg (by omega), if_neg (by omega)] at hb2'
+    injection hb2' with hb2'; subst hb2'
+    simp only []; omega
+  obtain ⟨s3, hs3⟩ : ∃ x : Sys, x = { s2' with stsei := t2 } := ⟨_, rfl⟩
+  have H3 : s2'.handle (HubSt.tokMsg hubA stseiA (.burn amt)) =
+      .ok (s3, [Msg.wasm stseiA hubA (.hub .checkSlashing) []]) := by
+    simp only [HubSt.tokMsg, Sys.handle, Sys.moveFunds, bind, Except.bind, pure, Except.pure]
+    rw [if_neg (by decide), if_neg (by decide), if_pos trivial]
+    simp only [stsei2, stseiExec, bind, Except.bind, pure, Except.pure, throw, throwThe, MonadExceptOf.throw, hub1]
+    rw [if_neg (by simp)]
+    simp only [hb2', hs3]
+  -- 5. and refreshes its rates
+  have hub3 : s3.hub = h2 := by rw [hs3]; show s2'.hub = h2; rw [sc2.hub, hs2]
+  have fr := processUndelegations_frame _ _ _ _ hpu
+  have cfg3 : s3.hub.bsei = some bseiA ∧ s3.hub.stsei = some stseiA ∧ s3.hub.isPaused = false := by
+    rw [hub3]
+    refine ⟨?_, ?_, ?_⟩
+    · rw [fr.2.bsei]; show st'.bsei = _; rw [sb.bsei]; exact hbt
+    · rw [fr.2.stsei]; show st'.stsei = _; rw [sb.stsei]; exact hst
+    · unfold HubSt.isPaused at hp ⊢; rw [fr.1.paused]; show st'.paused.getD false = _; rw [sb.paused]; exact hp
+  have hb3 : s3.hub.bSupplyQ s3.hubEnv = .ok s3.bsei.supply := by
+    simp only [HubSt.bSupplyQ, cfg3.1]; rfl
+  have hs3q : s3.hub.sSupplyQ s3.hubEnv = .ok s3.stsei.supply := by
+    simp only [HubSt.sSupplyQ, cfg3.2.1]; rfl
+  obtain ⟨st4, hact4⟩ := actualState_live s3.hub s3.hubEnv _ _ hb3 hs3q
+  obtain ⟨s4, hs4⟩ : ∃ x : Sys, x = { s3 with hub := st4 } := ⟨_, rfl⟩
+  have H4 : s3.handle (Msg.wasm stseiA hubA (.hub .checkSlashing) []) = .ok (s4, []) := by
+    simp only [Sys.handle, Sys.moveFunds, bind, Except.bind, pure, Except.pure]
+    rw [if_pos trivial]
+    simp only [hubExec, cfg3.2.2, Bool.false_eq_true, if_false, bind, Except.bind, pure, Except.pure, hact4, hs4]
+  have sb4 := (actualState_spec s3.hub st4 s3.hubEnv hact4).1
+  have hself : s.hubEnv.self = hubA := rfl
+  refine ⟨s4, ?_, ?_, ?_, ?_⟩
+  · unfold Sys.exec
+    obtain ⟨n2, hn2⟩ : ∃ n2, 398 - k = n2 + 2 := ⟨396 - k, by omega⟩
+    have e398 : (398 : Nat) = (398 - k) + k := by omega
+    have hr1 : Sys.run 400 s [Msg.wasm u stseiA (.tok (.send hubA amt .unbond)) []] =
+        Sys.run 398 s2 (ms2 ++ []) := by
+      simp only [Sys.run, H1, H2, List.nil_append, List.append_nil, List.singleton_append]
+    rw [hr1, hms2, hum, hself, List.append_assoc, e398, hrun (398 - k), hn2]
+    simp only [Sys.run, H3, H4, List.nil_append, List.append_nil, List.singleton_append]
+  · rw [hs4]; show st4.batchId = _
+    rw [sb4.batchId, hub3, psp.2.2.2.2.2.2.2.2.2.1]
+    show st'.batchId + 1 = _; rw [sb.batchId]
+  · rw [hs4]
+    have hb0 : (st'.afterUnbondS u amt).batchId = s.hub.batchId := by show st'.batchId = _; exact sb.batchId
+    have hentry : st4.hist s.hub.batchId = some
+        { time := s.hubEnv.now, bAmt := (st'.afterUnbondS u amt).reqB, bApplied := (st'.afterUnbondS u amt).bRate,
+          bWithdraw := (st'.afterUnbondS u amt).bRate, sAmt := (st'.afterUnbondS u amt).reqS,
+          sApplied := (st'.afterUnbondS u amt).sRate, sWithdraw := (st'.afterUnbondS u amt).sRate, released := false } := by
+      rw [sb4.hist, hub3, psp.2.2.2.2.2.2.2.2.2.2.2.1, hb0, upd_same]
+    refine ⟨_, hentry, ?_, hnow, rfl⟩
+    show st'.reqS + amt = _; rw [sb.reqS]
+  · rw [hs4]; show s3.stsei.supply + amt = _; rw [hs3]; exact sup2
+
 end Krp
